@@ -322,6 +322,8 @@ pub enum Site {
     TypeParams { a: usize, b: usize, n: usize },
     RetType { a: usize, b: usize, def: usize },
     FieldType { a: usize, b: usize, is_app: bool },
+    /// an occurrence of a type parameter of the enclosing declaration in a field or result type
+    TypeParamUse(usize, usize),
 }
 
 pub struct Printer<'a> {
@@ -344,6 +346,25 @@ const L_T1: u8 = 1;
 impl<'a> Printer<'a> {
     pub fn new(p: &'a Prog, naming: Naming) -> Self {
         Printer { p, naming, out: String::new(), indent: 0, noise: None, neg_zero_emitted: false, sites: Vec::new() }
+    }
+
+    /// records every identifier token of the output from `from` on that is one of `params`
+    fn type_param_uses(&mut self, from: usize, params: &[String]) {
+        let text = self.out[from..].to_string();
+        let mut start = None;
+        for (i, ch) in text.char_indices().chain(std::iter::once((text.len(), ' '))) {
+            let ident = ch.is_alphanumeric() || ch == '_';
+            match (start, ident) {
+                (None, true) => start = Some(i),
+                (Some(st), false) => {
+                    if params.iter().any(|p| p == &text[st..i]) {
+                        self.sites.push(Site::TypeParamUse(from + st, from + i));
+                    }
+                    start = None;
+                }
+                _ => {}
+            }
+        }
     }
 
     pub fn bname(&self, b: usize) -> String {
@@ -411,11 +432,14 @@ impl<'a> Printer<'a> {
                         let a = self.out.len();
                         self.out.push_str(&p.tyt_str(&f.ty, &t.params));
                         self.sites.push(Site::FieldType { a, b: self.out.len(), is_app: matches!(f.ty, TyT::App(..)) });
+                        self.type_param_uses(a, &t.params);
                     }
                     self.out.push(')');
                 }
                 if !t.is_data {
+                    let ra = self.out.len();
                     let _ = write!(self.out, " : {}", p.tyt_str(&x.ret, &t.params));
+                    self.type_param_uses(ra, &t.params);
                 }
                 self.sites.push(Site::XtorDecl { a: xa, b: self.out.len() });
             }
